@@ -142,6 +142,32 @@ def main(repo, out):
                   and bool(re.search(r'rib\.kind\.holds_locals\(\)\s*&&\s*crossed_local_border\.is_some\(\)', resolve))
         if not skip_ok: notes.append('resolve: unrecognised barrier/mapfile conditions')
 
+    # visit_call_args_with_signature_info: are arguments beyond the callee's last parameter visited?
+    vargs, _ = block_after(src, r'fn\s+visit_call_args_with_signature_info\s*\(&mut\s+self,\s*call:\s*&ast::ExprCall,\s*siggy:\s*Option<&Signature>\)\s*')
+    excess = None
+    if vargs is None:
+        notes.append('visit_call_args_with_signature_info: not found')
+    else:
+        inner, _ = block_after(vargs, r'match\s+siggy\s*')
+        some_arm = none_arm = None
+        if inner is not None:
+            for pat, rhs in split_arms(inner):
+                if nows(pat) == 'Some(siggy)': some_arm = nows(rhs)
+                elif nows(pat) == 'None': none_arm = nows(rhs)
+        zipped = 'letMatchedArgs{positional_pairs}=siggy.match_params_to_args(&call.args);for(param,arg)inpositional_pairs{self.ty_color_stack.push(param.ty_color.clone().map(|x|x.value));self.visit_expr(arg);self.ty_color_stack.pop();}'
+        rest_loops = ['forargincall.args.iter().skip(siggy.params.len()){self.visit_expr(arg);}',
+                      'forargin&call.args[siggy.params.len().min(call.args.len())..]{self.visit_expr(arg);}']
+        if none_arm != 'call.args.iter().for_each(|arg|self.visit_expr(arg))' or some_arm is None:
+            notes.append('visit_call_args_with_signature_info: unrecognised arms')
+        elif some_arm == '{' + zipped + '}':
+            excess = False
+        elif any(some_arm == '{' + zipped + r + '}' for r in rest_loops):
+            excess = True
+        else:
+            notes.append('visit_call_args_with_signature_info: unrecognised Some arm')
+    zip_ok = bool(re.search(r'self\.params\.iter\(\)\.zip\(\s*args\s*\)', defs))
+    if not zip_ok: notes.append('match_params_to_args: unrecognised')
+
     def lst(name, ty, l):
         return 'Definition %s : list %s := %s.\n' % (name, ty, coq_list(l) if l is not None else '[] (* unrecognised *)')
     def bl(name, b):
@@ -155,6 +181,7 @@ def main(repo, out):
     text += lst('gen_script_ribs', '(nstag * ribtag)', script_p)
     for k, v in steps.items(): text += bl(k, v)
     text += bl('gen_resolve_conditions', skip_ok)
+    text += bl('gen_visit_excess_args', excess)
     text += 'Definition gen_recognised : bool := %s.\n' % ('true' if not notes else 'false')
     text += '(* translator notes:\n' + ''.join('   %s\n' % n.replace('*)', '* )') for n in notes) + '*)\n'
     write_if_changed(out, text)
